@@ -37,6 +37,9 @@ var fragments = []string{
 	"current()", "deref(", "count(", "text()", "node()", "child::", "true()", "concat(", "string(", "xml", "XmL:a",
 	"site-fn()", "site-x(1)", "nosuch()", "unknown-fn(", "site-fn(",
 	"\xff", "\x80", "\xc3", "\xe2\x82", "\xf0\x9f", "\xed\xa0\x80", "é", "·", "�", " ", "\t", "\n", "\r", "\x00", "#", "~", "{", "\\",
+	// letters whose other case has another length in bytes (Kelvin sign, dotted capital I, long s, sharp S, Angstrom sign):
+	// whatever folds the case of a name works on another string than the one it measured
+	"\u212a", "a\u212a", "xm\u212a", "\u0130", "X\u0130", "\u017f", "\u1e9e", "x\u212b", "xM\u0130a",
 }
 
 func mapFn(p string) (string, error) {
